@@ -200,6 +200,20 @@ def derived_stores(world):
     return out
 
 
+def file_backable(world, kinds=("call",)):
+    """Stores that may be turned into real files of the bundled stores: owned by a node of the given kinds, not a
+    side-effect writer's target, not feeding or fed by another entry, not shared with a source entry."""
+    bad = {n["writes"] for n in world["nodes"] if n.get("writes")}
+    bad |= {sd["feeds"] for sd in world.get("stores", {}).values() if sd.get("feeds")}
+    bad |= {nm for nm, sd in world.get("stores", {}).items() if sd.get("feeds") or sd.get("shared")}
+    bad |= {n["store"] for n in world["nodes"] if n["kind"] == "src"}
+    out = []
+    for n in world["nodes"]:
+        if n.get("store") and n["kind"] in kinds and n["store"] not in bad and n["store"] not in out:
+            out.append(n["store"])
+    return out
+
+
 def norm(world, store_name, v):
     fl = world["stores"][store_name]["flavour"]
     return Norm(v) if fl == "norm" else v
